@@ -96,6 +96,11 @@ def run_check(prop: str, tier: str, seed: int) -> int:
     theorems = list(getattr(mod, 'THEOREMS', []))
     lean_module = getattr(mod, 'LEAN_MODULE', f'CC.Properties.{prop}')
     lean_modules = [lean_module] + list(getattr(mod, 'LEAN_MODULE_EXTRA', []))
+    # source guard (harness/extract_guard.py): constructs that change a function's meaning from outside its body
+    guard_module = f'CC.Properties.Guard.{prop}'
+    if (core.LEAN / 'CC' / 'Properties' / 'Guard' / f'{prop}.lean').exists():
+        lean_modules.append(guard_module)
+        theorems.append(f'CC.{prop}_source_guard')
     mod_ok = build.lake_rc == 0 or all(core.build_target(m)[0] for m in lean_modules)
     forbidden = core.grep_forbidden()
     if mod_ok:
@@ -112,7 +117,14 @@ def run_check(prop: str, tier: str, seed: int) -> int:
     for t in theorems:
         ax = axioms.get(t)
         if ax is None:
-            undischarged.append((t, 'does not compile against the regenerated model'))
+            why = 'does not compile against the regenerated model'
+            if t.endswith('_source_guard'):
+                try:
+                    gl = next(l for l in (core.LEAN / 'CC' / 'Gen' / 'SourceGuard.lean').read_text().splitlines() if l.startswith(f'def unknown_{prop} '))
+                    why = 'constructs in the anchor files that the models were not written against: ' + gl.split(':=', 1)[1].strip()[:1500]
+                except Exception:
+                    pass
+            undischarged.append((t, why))
         elif not set(ax) <= core.ALLOWED_AXIOMS:
             undischarged.append((t, f'uses axioms {sorted(set(ax) - core.ALLOWED_AXIOMS)}'))
     if forbidden:
